@@ -106,7 +106,14 @@ pub fn run(stdout: &mut StandardStream, hy_opt: &HyeongOption) -> Result<(), Err
             _ => {
                 let code = parse::parse(input);
                 for c in code.iter() {
-                    state = execute::execute(&mut stdin(), &mut out, &mut err, state, c)?;
+                    state = match execute::execute(&mut stdin(), &mut out, &mut err, state, c) {
+                        Ok(s) => s,
+                        Err(e) => {
+                            out.flush().unwrap();
+                            err.flush().unwrap();
+                            return Err(e);
+                        }
+                    };
                 }
             }
         }
